@@ -66,11 +66,21 @@ def worker(job):
                 merged[k] = v
         want = None if typeerr else [(k.lower(), None if v is True else (str(v) if not hasattr(v, "__html__") else "<b>&</b>")) for k, v in merged.items() if v is not None and v is not False]
         n += 1
+        snapshot = {k: (dict(v) if isinstance(v, dict) else v) for k, v in ctx.items()}
         try:
             out = Template(src).render(Context(ctx))
             p = P()
             p.feed(out)
             got = p.attrs
+            # the same objects are used again (a second tag, a loop, the next request): the tag must not have changed them
+            changed = {k: repr(v) for k, v in ctx.items() if isinstance(v, dict) and (v != snapshot[k] or list(v) != list(snapshot[k]))}
+            if changed and len(fails) < 6:
+                fails.append({"input": {"tag": src, "context": {k: repr(v) for k, v in snapshot.items()}}, "clause": "the dicts handed to the tag are not modified (a later use of the same object must render exactly the data given)",
+                              "expected": "attrs / defaults unchanged", "observed": changed})
+            out2 = Template(src).render(Context(ctx))
+            if out2 != out and len(fails) < 6:
+                fails.append({"input": {"tag": src, "context": {k: repr(v) for k, v in snapshot.items()}}, "clause": "rendering the same tag with the same objects twice gives the same output",
+                              "expected": out, "observed": out2})
         except TypeError:
             got = "TypeError"
         except Exception as e:      # noqa: BLE001
